@@ -52,9 +52,8 @@ let parse_types (toks : string list) : tenv =
   { t_structs = structs; t_ifaces = ifaces }
 
 (* values; X<id> expands to the first definition of that record *)
-let parse_value (toks : string list) : sx * string list =
+let parse_value_with (defs : (string, sx) Hashtbl.t) (toks : string list) : sx * string list =
   let toks = ref toks in
-  let defs : (string, sx) Hashtbl.t = Hashtbl.create 16 in
   let next () = match !toks with t :: r -> toks := r; t | [] -> failwith "value: short" in
   let rec value () : sx =
     let t = next () in
@@ -84,6 +83,27 @@ let parse_value (toks : string list) : sx * string list =
        | 'X' -> (try Hashtbl.find defs (body ()) with Not_found -> failwith "value: dangling X")
        | _ -> failwith ("value: bad token " ^ t)) in
   let v = value () in (v, !toks)
+
+let parse_value (toks : string list) : sx * string list = parse_value_with (Hashtbl.create 16) toks
+
+(* ---- histories: the current record tree, looked up and updated by record identity ---- *)
+let rec find_rec (id : z) (v : sx) : sx option =
+  let first l = List.fold_left (fun acc x -> match acc with Some _ -> acc | None -> find_rec id x) None l in
+  match v with
+  | SRec (i, _, fs) -> if i = id then Some v else first (List.map snd fs)
+  | SHash (_, fs) -> first (List.map snd fs)
+  | SArr l -> first l
+  | _ -> None
+
+(* (hset r key v) on the record with identity id: every occurrence of that record in the tree is the same object *)
+let rec set_rec (id : z) (k : str) (nv : sx) (v : sx) : sx =
+  match v with
+  | SRec (i, tn, fs) ->
+    let fs = List.map (fun (k0, x) -> (k0, set_rec id k nv x)) fs in
+    if i = id then SRec (i, tn, hash_set k nv fs) else SRec (i, tn, fs)
+  | SHash (i, fs) -> SHash (i, List.map (fun (k0, x) -> (k0, set_rec id k nv x)) fs)
+  | SArr l -> SArr (List.map (set_rec id k nv) l)
+  | x -> x
 
 (* ---- rendering ------------------------------------------------------------------ *)
 
@@ -202,6 +222,39 @@ let () =
          cur_te := parse_types rest;
          let ok = wf_tenv fuel !cur_te in
          Printf.printf "%s\t%s\t%s\n" id (if ok then "ok" else "not-wf") (if ok then "ok" else "not-wf")
+       | "hist" :: _ :: rest ->
+         (* hist <RootTarget> <root record> {G id | P id | S id key value}: (togo r) / pass r to a Go method / (hset r key v) *)
+         let te = !cur_te in
+         let defs = Hashtbl.create 16 in
+         let (root, rest) = parse_value_with defs rest in
+         let cur = ref root and heap = ref [] and sh = ref [] in
+         let mouts = ref [] and souts = ref [] in
+         let rec steps toks = match toks with
+           | [] -> ()
+           | ("G" | "P" as o) :: id :: more ->
+             let idz = z_of_string id in
+             (match find_rec idz !cur with
+              | Some (SRec (_, tn, _) as r) ->
+                let tname = (match find_reg te tn with Some d -> d.s_name | None -> tn) in
+                (match hist_convert fuel te (o = "G") tname idz r !heap !sh with
+                 | Ok (v, (h', sh')) -> heap := h'; sh := sh'; mouts := ("OK " ^ render_go h' v) :: !mouts
+                 | Err | Crash _ -> mouts := "ERR" :: !mouts
+                 | OutOfFuel -> mouts := "FUEL" :: !mouts
+                 | OutOfModel -> mouts := "OOM" :: !mouts);
+                souts := (match spec_to_go fuel te tname r with
+                          | SOk v -> "OK " ^ render_d v | SErr _ -> "ERR" | SSilent -> "-" | SFuel -> "FUEL") :: !souts
+              | _ -> failwith "hist: no such record");
+             steps more
+           | "S" :: id :: key :: more ->
+             let (v, more) = parse_value_with defs more in
+             cur := set_rec (z_of_string id) (str_of_string key) v !cur;
+             steps more
+           | t :: _ -> failwith ("hist: bad step " ^ t) in
+         steps rest;
+         let ms = String.concat ";" (List.rev !mouts) and ss = String.concat ";" (List.rev !souts) in
+         let ms = if List.mem "OOM" !mouts || List.mem "FUEL" !mouts then "OOM" else ms in
+         let ss = if List.mem "-" !souts then "-" else ss in
+         Printf.printf "%s\t%s\t%s%s\n" id ms ss (if ms <> ss && ms <> "OOM" && ss <> "-" then "|other" else "")
        | op :: target :: rest ->
          let (r, _) = parse_value rest in
          let t = str_of_string target in
